@@ -265,49 +265,7 @@ extern "C" void h_shapeorder(int ver, int nshapes, int len) {
 
 // ---- C15: corrupted references never crash loading, querying or saving
 static void battery(NifFile& nif) {
-	auto shapes = nif.GetShapes();
-	std::vector<NiObject*> tree;
-	nif.GetTree(tree);
-	nif.GetShapeNames();
-	nif.GetNodes();
-	nif.GetRootNode();
-	for (auto sh : shapes) {
-		std::vector<Vector3> v;
-		nif.GetVertsForShape(sh, v);
-		std::vector<Triangle> t;
-		sh->GetTriangles(t);
-		std::vector<std::string> bones;
-		nif.GetShapeBoneList(sh, bones);
-		std::vector<int> ids;
-		nif.GetShapeBoneIDList(sh, ids);
-		std::string tex;
-		nif.GetTextureSlot(sh, tex, 0);
-		nif.GetShader(sh);
-		nif.GetParentNode(sh);
-		nif.GetUvsForShape(sh);
-		nif.GetNormalsForShape(sh);
-		NiVector<BSDismemberSkinInstance::PartitionInfo> pinfo;
-		std::vector<int> triParts;
-		nif.GetShapePartitions(sh, pinfo, triParts);
-		MatTransform xf;
-		nif.GetShapeTransformGlobalToSkin(sh, xf);
-		nif.CalcShapeTransformGlobalToSkin(sh, xf);
-		// per-bone queries with every index that is valid for the shape's own bone list
-		for (uint32_t bi = 0; bi < ids.size(); bi++) {
-			nif.GetShapeTransformSkinToBone(sh, bi, xf);
-			nif.GetShapeBoneTransform(sh, bi, xf);
-			BoundingSphere bs;
-			nif.GetShapeBoneBounds(sh, bi, bs);
-			std::unordered_map<uint16_t, float> w;
-			nif.GetShapeBoneWeights(sh, bi, w);
-		}
-		for (auto& bn : bones) {
-			nif.GetShapeTransformSkinToBone(sh, bn, xf);
-			nif.GetShapeBoneTransform(sh, bn, xf);
-		}
-	}
-	for (auto n : nif.GetNodes())
-		nif.GetParentNode(n);
+	fm_query_battery(nif);
 }
 extern "C" void h_c15(int ver, int feat, int which, int which2) {
 	NifFile nif;
